@@ -451,11 +451,13 @@ def validate(d: dict, version: (float | None) = None) -> list:
     if isinstance(d, list):
         messages = []
         for root in d:
-            schema_name = root.get("__type__", "map")
+            schema_name = str(root.get("__type__", "map")).lower()
             messages += v.validate(root, schema_name=schema_name, version=version)
         return messages
 
-    return v.validate(d, schema_name=d.get("__type__", "map"), version=version)
+    return v.validate(
+        d, schema_name=str(d.get("__type__", "map")).lower(), version=version
+    )
 
 
 def _save(output_file: str, string: str) -> None:
